@@ -2343,8 +2343,14 @@ impl<'a, 'ast> Typecheck<'a, 'ast> {
                 let typ = final_type.clone();
 
                 let typ = self.instantiate_generics(&typ);
-                for (elem, field) in elems.iter_mut().zip(typ.row_iter()) {
-                    let mut field_type = field.typ.clone();
+                let field_types = typ.row_iter().map(|f| f.typ.clone()).collect::<Vec<_>>();
+                for (i, elem) in elems.iter_mut().enumerate() {
+                    // The matched type may have fewer fields than the pattern (already reported),
+                    // the remaining variables must still get a type that survives generalization
+                    let mut field_type = field_types
+                        .get(i)
+                        .cloned()
+                        .unwrap_or_else(|| self.subs.error());
                     self.generalize_type(level, &mut field_type, elem.span);
                     self.finish_pattern(level, elem, &field_type);
                 }
@@ -2352,13 +2358,16 @@ impl<'a, 'ast> Typecheck<'a, 'ast> {
             Pattern::Constructor(ref mut id, ref mut args) => {
                 debug!("{}: {}", self.symbols.string(&id.name), final_type);
                 let len = args.len();
-                let iter = args.iter_mut().zip(
-                    function_arg_iter(self, final_type.clone())
-                        .map(|t| t.1)
-                        .take(len)
-                        .collect::<Vec<_>>(),
-                );
-                for (arg, arg_type) in iter {
+                let arg_types = function_arg_iter(self, final_type.clone())
+                    .map(|t| t.1)
+                    .take(len)
+                    .collect::<Vec<_>>();
+                for (i, arg) in args.iter_mut().enumerate() {
+                    // Too many arguments in the pattern has already been reported
+                    let arg_type = arg_types
+                        .get(i)
+                        .cloned()
+                        .unwrap_or_else(|| self.subs.error());
                     self.finish_pattern(level, arg, &arg_type);
                 }
             }
